@@ -6,8 +6,8 @@ Helper lemmas for the HISTORY clauses of C18 (second pass): one `ArrayMorphology
 * `Coh o` — the cache is coherent with the arrays: every live binding `i ↦ s` is what the arrays define for
   `segments[i]` today (`viewGet o.arr i = .ok s`).
 * every call except `to_root` keeps `Coh` and the arrays, and returns the array-defined value when `Coh` holds
-  (`step_coh`); `to_root` keeps an EMPTY cache coherent; calls that do not read the cache return the array-defined
-  value whatever the cache holds (`step_nocache`).
+  (`step_coh_nt`); `to_root` empties the cache, and an EMPTY cache is coherent with any arrays: `Coh` is an
+  invariant of EVERY history (`step_coh`, `run_coh`).
 -/
 namespace NmlVerif.ArrayMorph
 
@@ -116,12 +116,8 @@ theorem iterObj_coh {o : Obj} (h : Coh o) :
   have := iterFrom_coh o.arr (iterFuel o) o 0 rfl h (by unfold iterFuel; omega)
   simpa [iterObj, viewIter] using this
 
-theorem toRootObj_arr (o : Obj) (j : Int) : (toRootObj o j).2.cache = o.cache := by
-  unfold toRootObj
-  cases toRoot o.arr j <;> rfl
-
 /-- a call other than `to_root` on a coherent object: array-defined result, same arrays, still coherent -/
-theorem step_coh {o : Obj} (h : Coh o) (op : Op) (hop : op.isToRoot = false) :
+theorem step_coh_nt {o : Obj} (h : Coh o) (op : Op) (hop : op.isToRoot = false) :
     (step o op).1 = (specStep o.arr op).1 ∧ (step o op).2.arr = o.arr ∧ (specStep o.arr op).2 = o.arr ∧
       Coh (step o op).2 := by
   cases op with
@@ -135,23 +131,6 @@ theorem step_coh {o : Obj} (h : Coh o) (op : Op) (hop : op.isToRoot = false) :
   | sfv k => exact ⟨rfl, rfl, rfl, h⟩
   | conv => exact ⟨rfl, rfl, rfl, h⟩
   | toRoot j => cases hop
-
-/-- a call that does not go through the cache: array-defined result, the same new arrays, cache untouched —
-    whatever the cache holds -/
-theorem step_nocache (o : Obj) (op : Op) (hop : op.usesCache = false) :
-    (step o op).1 = (specStep o.arr op).1 ∧ (step o op).2.arr = (specStep o.arr op).2 ∧
-      (step o op).2.cache = o.cache := by
-  cases op with
-  | get i => cases hop
-  | iter => cases hop
-  | len => exact ⟨rfl, rfl, rfl⟩
-  | sfv k => exact ⟨rfl, rfl, rfl⟩
-  | conv => exact ⟨rfl, rfl, rfl⟩
-  | toRoot j =>
-    simp only [step, specStep, toRootObj]
-    cases toRoot o.arr j with
-    | ok a' => exact ⟨rfl, rfl, rfl⟩
-    | error e => exact ⟨rfl, rfl, rfl⟩
 
 theorem run_append (o : Obj) (xs ys : List Op) :
     run o (xs ++ ys) = ((run o xs).1 ++ (run (run o xs).2 ys).1, (run (run o xs).2 ys).2) := by
@@ -167,36 +146,39 @@ theorem specRun_append (a : Arr) (xs ys : List Op) :
   | cons x xs ih =>
     simp only [List.cons_append, specRun, ih, List.cons_append]
 
-/-- histories without cache reads: results and arrays are the array-defined ones, the cache stays as it was -/
-theorem run_nocache : ∀ (ops : List Op) (o : Obj), (∀ op ∈ ops, op.usesCache = false) →
-    (run o ops).1 = (specRun o.arr ops).1 ∧ (run o ops).2.arr = (specRun o.arr ops).2 ∧
-      (run o ops).2.cache = o.cache := by
+/-- ANY call on a coherent object: array-defined result, array-defined new arrays, still coherent (`to_root`
+    empties the cache) -/
+theorem step_coh {o : Obj} (h : Coh o) (op : Op) :
+    (step o op).1 = (specStep o.arr op).1 ∧ (step o op).2.arr = (specStep o.arr op).2 ∧ Coh (step o op).2 := by
+  by_cases hop : op.isToRoot = false
+  · obtain ⟨s1, s2, s3, s4⟩ := step_coh_nt h op hop
+    rw [s3]
+    exact ⟨s1, s2, s4⟩
+  · cases op with
+    | toRoot j =>
+      simp only [step, specStep, toRootObj]
+      cases toRoot o.arr j with
+      | ok a' => exact ⟨rfl, rfl, coh_of_empty rfl⟩
+      | error e => exact ⟨rfl, rfl, h⟩
+    | get i => exact absurd rfl hop
+    | len => exact absurd rfl hop
+    | iter => exact absurd rfl hop
+    | sfv k => exact absurd rfl hop
+    | conv => exact absurd rfl hop
+
+/-- EVERY history on a coherent object: array-defined results, array-defined arrays, still coherent -/
+theorem run_coh : ∀ (ops : List Op) (o : Obj), Coh o →
+    (run o ops).1 = (specRun o.arr ops).1 ∧ (run o ops).2.arr = (specRun o.arr ops).2 ∧ Coh (run o ops).2 := by
   intro ops
   induction ops with
-  | nil => intro o _; exact ⟨rfl, rfl, rfl⟩
+  | nil => intro o h; exact ⟨rfl, rfl, h⟩
   | cons op ops ih =>
-    intro o h
-    obtain ⟨s1, s2, s3⟩ := step_nocache o op (h op (by simp))
-    obtain ⟨r1, r2, r3⟩ := ih (step o op).2 (fun x hx => h x (by simp [hx]))
+    intro o hc
+    obtain ⟨s1, s2, s3⟩ := step_coh hc op
+    obtain ⟨r1, r2, r3⟩ := ih (step o op).2 s3
     simp only [run, specRun]
     rw [s2] at r1 r2
-    exact ⟨by rw [s1, r1], r2, by rw [r3, s3]⟩
-
-/-- histories without `to_root` on a coherent object: array-defined results, same arrays, still coherent -/
-theorem run_coh : ∀ (ops : List Op) (o : Obj), Coh o → (∀ op ∈ ops, op.isToRoot = false) →
-    (run o ops).1 = (specRun o.arr ops).1 ∧ (run o ops).2.arr = o.arr ∧ (specRun o.arr ops).2 = o.arr ∧
-      Coh (run o ops).2 := by
-  intro ops
-  induction ops with
-  | nil => intro o h _; exact ⟨rfl, rfl, rfl, h⟩
-  | cons op ops ih =>
-    intro o hc h
-    obtain ⟨s1, s2, s3, s4⟩ := step_coh hc op (h op (by simp))
-    obtain ⟨r1, r2, r3, r4⟩ := ih (step o op).2 s4 (fun x hx => h x (by simp [hx]))
-    simp only [run, specRun]
-    rw [s2] at r1 r2 r3
-    rw [s3]
-    exact ⟨by rw [s1, r1], r2, r3, r4⟩
+    exact ⟨by rw [s1, r1], r2, r3⟩
 
 /-! fuel sufficiency of the iteration loop, for ANY cache (coherent or not) -/
 
@@ -291,48 +273,47 @@ theorem iterObj_fuel_enough (o : Obj) (extra : Nat) : iterFrom (iterFuel o + ext
     exact iterFrom_fuel ((distalIdx o.arr).length + (maxKey o.cache + 1).toNat) (iterFuel o + n) o 0 (by omega) hB
       (by unfold iterFuel; omega)
 
-/-! the repaired `to_root` (empties the cache): coherence is an invariant of EVERY history -/
+/-! validity (a tree without floating vertices) is kept by every history whose `to_root` indices are vertices -/
 
-theorem stepFixed_coh {o : Obj} (h : Coh o) (op : Op) :
-    (stepFixed o op).1 = (specStep o.arr op).1 ∧ (stepFixed o op).2.arr = (specStep o.arr op).2 ∧
-      Coh (stepFixed o op).2 := by
-  by_cases hop : op.isToRoot = false
-  · obtain ⟨s1, s2, s3, s4⟩ := step_coh h op hop
-    have e : stepFixed o op = step o op := by
-      cases op with
-      | toRoot j => cases hop
-      | get i => rfl
-      | len => rfl
-      | iter => rfl
-      | sfv k => rfl
-      | conv => rfl
-    rw [e, s3]
-    exact ⟨s1, s2, s4⟩
-  · cases op with
-    | toRoot j =>
-      simp only [stepFixed, specStep, toRootObjFixed]
-      cases toRoot o.arr j with
-      | ok a' => exact ⟨rfl, rfl, coh_of_empty rfl⟩
-      | error e => exact ⟨rfl, rfl, h⟩
-    | get i => exact absurd rfl hop
-    | len => exact absurd rfl hop
-    | iter => exact absurd rfl hop
-    | sfv k => exact absurd rfl hop
-    | conv => exact absurd rfl hop
+/-- re-rooting a valid morphology at one of its vertices gives a valid morphology (rooted there) of the same size -/
+theorem Valid.toRoot {a : Arr} {r : Nat} (h : Valid a r) (j : Nat) (hj : j < a.conn.length) :
+    ∃ a', toRoot a (j : Int) = .ok a' ∧ Valid a' j ∧ a'.conn.length = a.conn.length := by
+  obtain ⟨c', h1, h2, h3, _⟩ := toRootFuel_spec a r j h.tree hj
+  refine ⟨_, h1, ⟨?_, ?_, h.noFloating, h3⟩, h2⟩
+  · show a.vertices.length = c'.length
+    rw [h2]; exact h.lenV
+  · show a.mask.length = c'.length
+    rw [h2]; exact h.lenM
 
-theorem runFixed_coh : ∀ (ops : List Op) (o : Obj), Coh o →
-    (runFixed o ops).1 = (specRun o.arr ops).1 ∧ (runFixed o ops).2.arr = (specRun o.arr ops).2 ∧
-      Coh (runFixed o ops).2 := by
+theorem specRun_valid : ∀ (ops : List Op) (a : Arr) (r : Nat), Valid a r →
+    (∀ op ∈ ops, op.rootInRange a.conn.length = true) →
+    ∃ r', Valid (specRun a ops).2 r' ∧ (specRun a ops).2.conn.length = a.conn.length := by
   intro ops
   induction ops with
-  | nil => intro o h; exact ⟨rfl, rfl, h⟩
+  | nil => intro a r h _; exact ⟨r, h, rfl⟩
   | cons op ops ih =>
-    intro o hc
-    obtain ⟨s1, s2, s3⟩ := stepFixed_coh hc op
-    obtain ⟨r1, r2, r3⟩ := ih (stepFixed o op).2 s3
-    simp only [runFixed, specRun]
-    rw [s2] at r1 r2
-    exact ⟨by rw [s1, r1], r2, r3⟩
+    intro a r h hops
+    have hrest : ∀ op' ∈ ops, op'.rootInRange a.conn.length = true :=
+      fun x hx => hops x (by simp [hx])
+    cases op with
+    | get i => exact ih a r h hrest
+    | len => exact ih a r h hrest
+    | iter => exact ih a r h hrest
+    | sfv k => exact ih a r h hrest
+    | conv => exact ih a r h hrest
+    | toRoot j =>
+      have hj01 := hops (.toRoot j) (by simp)
+      simp only [Op.rootInRange, Bool.and_eq_true, decide_eq_true_eq] at hj01
+      obtain ⟨j0, j1⟩ := hj01
+      have hj : j.toNat < a.conn.length := by omega
+      have hcast : ((j.toNat : Nat) : Int) = j := by omega
+      obtain ⟨a', e1, v1, l1⟩ := h.toRoot j.toNat hj
+      rw [hcast] at e1
+      have hs : specRun a (.toRoot j :: ops) = (let rs := specRun a' ops; (Res.unit (.ok ()) :: rs.1, rs.2)) := by
+        simp only [specRun, specStep, e1]
+      rw [hs]
+      obtain ⟨r', v2, l2⟩ := ih a' j.toNat v1 (by rw [l1]; exact hrest)
+      exact ⟨r', v2, by rw [← l1]; exact l2⟩
 
 /-! a tree's parent array is determined by its undirected edges and its root -/
 
